@@ -51,7 +51,12 @@ def details_fn(items):
     d = {}
     for it in items:
         chunks = [bytes.fromhex(h) for h in it["chunks"]]
-        ct = ContentType(it["type"][0], it["type"][1], dict(it["type"][2]))
+        if len(it["name"]) % 2:
+            ct = ContentType(it["type"][0], it["type"][1], dict(it["type"][2]))
+        else:
+            # the public `parameters` completed after construction (a charset that becomes known later): the same type
+            ct = ContentType(it["type"][0], it["type"][1])
+            ct.parameters.update(it["type"][2])
         d[it["name"]] = Content(ct, lambda c=chunks: list(c))
     return d
 
